@@ -146,9 +146,14 @@ def send_flags(fn) -> list[bool]:
 def _local_helper(call: ast.Call, fn):
     """The private helper a call refers to, if it is one we can see: `self._x(...)` / `cls._x(...)` (a function of the
     class `fn` is defined in) or `_x(...)` (a function of fn's module).  None for everything else."""
+    return _resolve_helper(call.func, fn)
+
+
+def _resolve_helper(f, fn):
+    """The private helper the expression `f` (`self._x` / `cls._x` / `_x`) names, seen from inside `fn`; None otherwise.
+    Used for calls (`_local_helper`) and for plain references (`partial(self._x, ...)`, `create_task(self._x())`)."""
     module = inspect.getmodule(fn)
     target = None
-    f = call.func
     if isinstance(f, ast.Attribute) and isinstance(f.value, ast.Name) and f.value.id in ("self", "cls") and f.attr.startswith("_") \
             and not f.attr.startswith("__"):
         owner = module
@@ -173,6 +178,29 @@ def _local_helper(call: ast.Call, fn):
 
 
 _SITE_FUNCS: list = []
+
+
+def _tables_snapshot() -> dict:
+    """Committed values of the few tables that fall back when the code leaves the shape they are read from."""
+    with open(os.path.join(os.path.dirname(os.path.abspath(__file__)), "tables_snapshot.json"), encoding="utf-8") as f:
+        return json.load(f)
+
+
+def _stream_read_in_subset(read_fn) -> bool:
+    """Is `StreamTransport.read` inside the subset of the stream translator (tools/translate.py: TrStream)?  Asked of
+    the translator itself, so that the table and the translation fall back together."""
+    sys.path.insert(0, os.path.dirname(os.path.abspath(__file__)))
+    try:
+        import translate as T  # noqa: PLC0415
+    except Exception:  # noqa: BLE001
+        return True
+    finally:
+        sys.path.pop(0)
+    try:
+        T.TrStream(read_fn, "read").block(T.fn_ast(read_fn).body)
+    except (T.Untranslatable, KeyError, TypeError, OSError, AttributeError, IndexError):
+        return False
+    return True
 
 
 def except_tuples(fn, merge_same_action: bool = False) -> list[list[str]]:
@@ -753,17 +781,29 @@ def extract(repo: str):
             out.append(name)
         return out
 
+    # The blocks say something only while `read` keeps the shape the stream translator understands (guards followed by
+    # top-level `try` statements): a clause that moved into a context manager or into a helper is invisible to this
+    # walk, and the table would then MISREPRESENT the code (the model would stop mapping OSError although the code
+    # still does).  Outside that shape the table is taken from its committed snapshot (tools/tables_snapshot.json) —
+    # exactly when tools/translate.py writes `read` from ITS snapshot, so `StreamBodiesEq.readClauses*_table` keeps
+    # comparing like with like — and `read` is tied by C17's correspondence run alone (DESIGN 13, false alarm 13).
+    read_fn = getattr(st.read, "__func__", st.read)
+    js["snapshot"] = []
     blocks = []
-    for node in fn_ast(getattr(st.read, "__func__", st.read)).body:
-        if isinstance(node, ast.Try):
-            block = []
-            for h in node.handlers:
-                cs = handler_classes(h)
-                for c in cs:
-                    if c not in PYEXN:
-                        raise ExtractError(f"excStreamReadBlocks: exception class {c} outside the vocabulary")
-                block.append((cs, raise_name(h)))
-            blocks.append(block)
+    if _stream_read_in_subset(read_fn):
+        for node in fn_ast(read_fn).body:
+            if isinstance(node, ast.Try):
+                block = []
+                for h in node.handlers:
+                    cs = handler_classes(h)
+                    for c in cs:
+                        if c not in PYEXN:
+                            raise ExtractError(f"excStreamReadBlocks: exception class {c} outside the vocabulary")
+                    block.append((cs, raise_name(h)))
+                blocks.append(block)
+    else:
+        blocks = [[(list(cs), nm) for cs, nm in b] for b in _tables_snapshot()["excStreamReadBlocks"]]
+        js["snapshot"].append("excStreamReadBlocks")
     emit("def excStreamReadBlocks : List (List (List PyExn × String)) := " + lean_list(
         [lean_list(["(" + lean_list([f".{c}" for c in cs]) + ", " + lean_str(nm) + ")" for cs, nm in b]) for b in blocks]))
     js["except"]["excStreamReadBlocks"] = [[[cs, nm] for cs, nm in b] for b in blocks]
@@ -809,11 +849,39 @@ def extract(repo: str):
         return any(isinstance(c, ast.Call) and isinstance(c.func, ast.Attribute) and c.func.attr == "cancel"
                    and isinstance(c.func.value, ast.Name) and c.func.value.id == n.value.id for c in ast.walk(tree))
 
-    start_tuples = js["except"]["excPersistStart"]
-    for name, pred, pos in (("excPersistStartSleep", is_sleep, 0), ("excPersistStartAwait", is_await_cancelled_task, 1)):
-        cs = guards_around(pers_mod.Persistence.start, pred)
-        if cs is None:  # the awaited thing was restructured beyond recognition: the positional reading as before
-            cs = start_tuples[pos] if pos < len(start_tuples) else []
+    # The two awaits are looked for in `start` itself (closures included) and in the private helpers of the class or
+    # module that `start` CALLS OR MENTIONS (`create_task(self._run_saver())`, `partial(self._cancel_saver, task)`, a
+    # lambda, ...), two levels deep: where the saver and the cancel callback live is not behaviour.  If neither is
+    # found the table keeps its committed snapshot value (tools/tables_snapshot.json) instead of a positional guess that
+    # could misrepresent the code, and C16's correspondence run alone ties the clause (DESIGN 13, false alarm 15).
+    def reachable_from(fn, depth=2):
+        seen, todo = [fn], [(fn, 0)]
+        while todo:
+            f, d = todo.pop(0)
+            if d >= depth:
+                continue
+            try:
+                tree = fn_ast(getattr(f, "__func__", f))
+            except (OSError, TypeError, ExtractError):
+                continue
+            for n in ast.walk(tree):
+                if isinstance(n, (ast.Attribute, ast.Name)):
+                    h = _resolve_helper(n, getattr(f, "__func__", f))
+                    if h is not None and not any(h is x for x in seen):
+                        seen.append(h)
+                        todo.append((h, d + 1))
+        return seen
+
+    start_fns = reachable_from(pers_mod.Persistence.start)
+    for name, pred in (("excPersistStartSleep", is_sleep), ("excPersistStartAwait", is_await_cancelled_task)):
+        cs = None
+        for f in start_fns:
+            cs = guards_around(f, pred)
+            if cs is not None:
+                break
+        if cs is None:
+            cs = list(_tables_snapshot()[name])
+            js["snapshot"].append(name)
         for c in cs:
             if c not in PYEXN:
                 raise ExtractError(f"{name}: exception class {c} outside the vocabulary")
@@ -913,6 +981,8 @@ def main() -> int:
     ap.add_argument("--repo", default="/repo")
     ap.add_argument("--out", required=True)
     ap.add_argument("--json", required=True)
+    ap.add_argument("--update-snapshot", action="store_true",
+                    help="rewrite tools/tables_snapshot.json from this tree (together with translate.py --update-snapshot)")
     args = ap.parse_args()
     try:
         lines, js = extract(args.repo)
@@ -941,7 +1011,12 @@ def main() -> int:
         with open(args.json + ".tmp", "w", encoding="utf-8") as f:
             json.dump(js, f, indent=1, sort_keys=True)
         os.replace(args.json + ".tmp", args.json)
-    print(f"EXTRACT-OK changed={'yes' if changed else 'no'} sha={hashlib.sha1(text.encode()).hexdigest()[:12]}")
+    snap = js.get("snapshot") or []
+    if args.update_snapshot and not snap:
+        with open(os.path.join(os.path.dirname(os.path.abspath(__file__)), "tables_snapshot.json"), "w", encoding="utf-8") as f:
+            json.dump({k: js["except"][k] for k in ("excStreamReadBlocks", "excPersistStartSleep", "excPersistStartAwait")}, f, indent=1)
+    print(f"EXTRACT-OK changed={'yes' if changed else 'no'} sha={hashlib.sha1(text.encode()).hexdigest()[:12]}"
+          + (f" snapshot={','.join(snap)}" if snap else ""))
     return 0
 
 
